@@ -210,7 +210,16 @@ pub fn render_token(tk: &Value) -> String {
     match t {
         "G" => match tk["dflt"].as_str().unwrap() {
             "none" => "<graph>".to_string(),
-            d => format!("<graph edgedefault=\"{}\">", if d == "other" { "sideways" } else { d }),
+            d => {
+                let hints = match tk.get("hints").and_then(|h| h.as_str()).unwrap_or("") {
+                    "h_small" => " id=\"G\" parse.nodes=\"2\" parse.edges=\"1\" parse.maxindegree=\"1\" parse.maxoutdegree=\"1\" parse.nodeids=\"canonical\" parse.edgeids=\"free\" parse.order=\"nodesfirst\"",
+                    "h_huge" => " id=\"G\" parse.nodes=\"4611686018427387904\" parse.edges=\"4611686018427387904\" parse.maxindegree=\"4611686018427387904\"",
+                    "h_big" => " parse.edges=\"1000000000000000\" parse.nodes=\"1000000000000000\" parse.order=\"free\"",
+                    "h_word" => " parse.nodes=\"many\" parse.edges=\"-1\" parse.maxindegree=\"99999999999999999999999999\" parse.order=\"\"",
+                    _ => "",
+                };
+                format!("<graph edgedefault=\"{}\"{}>", if d == "other" { "sideways" } else { d }, hints)
+            }
         },
         "/G" => "</graph>".to_string(),
         "N" => {
@@ -381,6 +390,7 @@ pub fn corruption_events<W: Write>(em: &mut Emitter<W>, ndocs: usize, stride: us
                 match r["e"].as_str().unwrap_or("Abort") {
                     "Ok" => ok += 1,
                     "Err" => err += 1,
+                    "NotRun" => variants -= 1,
                     o => {
                         bad += 1;
                         if first_bad == json!({}) {
